@@ -21,7 +21,7 @@ instance (g : Graph) : Decidable (NoHashed g) := inferInstanceAs (Decidable (_ =
 /-- the kind of an ordered container as `equal?` sees it (the two vector kinds coincide) -/
 def otag : Node → Nat
   | .leaf _ => 0
-  | .list _ => 1
+  | .list _ _ => 1
   | .pair _ _ => 2
   | .vec _ => 3
   | .mvec _ => 3
